@@ -323,7 +323,58 @@ def gen_pseudo(thorough):
     for te in (b"trailers", b"chunked", b"", b"Trailers", b"trailers "):
         for k in KINDS:
             lines.append(f"h3v.headers {k} {fmt_headers(GOOD_PREFIX[k] + [(b'transfer-encoding', te)])}")
+    # every kind of regular header the code treats specially, as THE regular
+    # header standing before late pseudo-headers
+    for sep in SEPARATORS:
+        for n in range(0, 4 if not thorough else 5):
+            for seq in itertools.product(PSEUDO + [None], repeat=n):
+                if None not in seq:
+                    continue
+                hs = [sep if x is None else (x, DEFAULT_VAL[x]) for x in seq]
+                for k in KINDS:
+                    lines.append(f"h3v.headers {k} {fmt_headers(hs)}")
+        # complete valid pseudo-header sets with the separator inserted at every position
+        for k, full in (("req", four + [b":protocol"]), ("push", four), ("resp", [b":status"]), ("trl", [])):
+            for m in range(0, len(full) + 1):
+                if m == 5 and not thorough:
+                    continue
+                for seq in itertools.permutations(full, m):
+                    for i in range(m + 1):
+                        hs = [(x, DEFAULT_VAL[x]) for x in seq]
+                        hs.insert(i, sep)
+                        lines.append(f"h3v.headers {k} {fmt_headers(hs)}")
     return lines
+
+
+SEPARATORS = [
+    (b"content-length", b"0"), (b"content-length", b"+5"), (b"content-length", b"x"), (b"content-length", b""),
+    (b"transfer-encoding", b"trailers"), (b"transfer-encoding", b"chunked"),
+    (b"", b"v"), (b"a", b"b"), (b"te", b"trailers"),
+]
+
+
+def gen_late_pseudo_streams():
+    """the same through real frames: HeadersReceived / PushPromiseReceived must not carry a
+    pseudo-header after any kind of regular header"""
+    cases = []
+    for sep in SEPARATORS:
+        if not sep[0]:
+            continue        # QPACK cannot carry an empty name
+        S = [sep]
+        req = [(b":method", b"GET"), (b":scheme", b"https"), (b":path", b"/")]
+        auth = [(b":authority", b"x")]
+        for fin in (0, 1):
+            cases.append(["h3v.new 0 0", f"h3v.hdr {fmt_headers(req + S + auth)} {fin}"])
+            cases.append(["h3v.new 0 0", f"h3v.hdr {fmt_headers(req + auth + S)} {fin}"])
+            cases.append(["h3v.new 0 0", f"h3v.hdr {fmt_headers(S + req + auth)} {fin}"])
+            cases.append(["h3v.new 1 0", f"h3v.hdr {fmt_headers(S + RESP)} {fin}"])
+            cases.append(["h3v.new 1 0", f"h3v.hdr {fmt_headers(RESP + S)} {fin}"])
+            cases.append(["h3v.new 1 1", f"h3v.hdr {fmt_headers(S + RESP)} {fin}"])
+            cases.append(["h3v.new 1 0", f"h3v.pp {fmt_headers(req + S + auth)} {fin}"])
+            cases.append(["h3v.new 1 0", f"h3v.pp {fmt_headers(req + auth + S)} {fin}"])
+            cases.append(["h3v.new 1 0", f"h3v.hdr {fmt_headers(RESP)} 0", f"h3v.hdr {fmt_headers(S + RESP)} {fin}"])
+            cases.append(["h3v.new 0 0", f"h3v.hdr {fmt_headers(req + auth)} 0", f"h3v.hdr {fmt_headers(S + [(b':path', b'/')])} {fin}"])
+    return cases
 
 
 SPELLINGS = [
@@ -409,6 +460,27 @@ def gen_content_length(thorough):
                 for t in totals_here:
                     for sc in body_scenarios(first, t, b"7"):
                         cases.append([f"h3v.new {c} {p}"] + sc)
+    # a content-length in the TRAILERS must not replace the one of the first HEADERS:
+    # every combination of declared / delivered / trailer value, incl. trailers that
+    # match the body while the first HEADERS declared something else (and the reverse)
+    vals = [0, 3, 5] if not thorough else [0, 1, 3, 5, 10]
+    for (c, p, base) in ((0, 0, REQ), (1, 0, RESP), (1, 1, RESP)):
+        for decl in [None] + vals:
+            first = base + ([(b"content-length", str(decl).encode())] if decl is not None else [])
+            H = fmt_headers(first)
+            for body in vals:
+                for tcl in vals:
+                    for tr in ([(b"content-length", str(tcl).encode())],
+                               [(b"x-t", b"1"), (b"content-length", str(tcl).encode())],
+                               [(b"content-length", str(tcl).encode()), (b"content-length", b"+" + str(tcl).encode())]):
+                        T = fmt_headers(tr)
+                        a = body // 2
+                        cases.append([f"h3v.new {c} {p}", f"h3v.hdr {H} 0", f"h3v.data {body} {body} 0", f"h3v.hdr {T} 1"])
+                        cases.append([f"h3v.new {c} {p}", f"h3v.hdr {H} 0", f"h3v.data {body} {body} 0", f"h3v.hdr {T} 0", "h3v.fin"])
+                        cases.append([f"h3v.new {c} {p}", f"h3v.hdrdata {H} {body} 0", f"h3v.hdr {T} 1"])
+                        if body:
+                            cases.append([f"h3v.new {c} {p}", f"h3v.hdr {H} 0", f"h3v.data {body} {a} 0", f"h3v.frag {body - a} 0",
+                                          f"h3v.hdr {T} 0", "h3v.other 33 1"])
     # no content-length at all
     for (c, p, base) in ((0, 0, REQ), (1, 0, RESP), (1, 1, RESP), (0, 1, REQ)):
         for t in (0, 3):
@@ -623,6 +695,8 @@ def main(tier):
             cases.append([f"h3v.new {c} {p}", f"h3v.hdr {fmt_headers(base)} 0", f"h3v.hdr {fmt_headers([h])} 1"])
         cases.append(["h3v.new 1 0", f"h3v.pp {fmt_headers(REQ + [h])} 0"])
     run_stream_cases(ctx, "stream-small-lists", cases, H3ValidateImpl)
+    cases = gen_late_pseudo_streams()
+    run_stream_cases(ctx, "stream-late-pseudo", cases, H3ValidateImpl)
 
     ctx.cov["rule"] = (
         "validators: all 256 bytes in names/values (alone, after a valid byte, inside each of the 4 kinds), all strings of <=3 boundary bytes, "
@@ -630,7 +704,7 @@ def main(tier):
         "valid pseudo-headers, all sequences of <=4 (thorough 5) of 7 pseudo-headers + 1 regular header for the 4 kinds, all orders of all subsets of "
         "method/scheme/authority/path x scheme/authority/path values, int(bytes) on all strings of <=4 (5) bytes over a 13-byte alphabet, random lists; "
         "streams: every content-length spelling x body totals x every delivery path (DATA whole/split/fragment shortcut/lone FIN/trailers/FIN inside a frame/"
-        "FIN after PUSH_PROMISE or unknown frame) for request, response and push streams through real QPACK frames, random op sequences. "
+        "FIN after PUSH_PROMISE or unknown frame) and every declared x delivered x trailer-content-length combination for request, response and push streams through real QPACK frames, random op sequences. "
         "Non-trivial = accepted list of >=2 headers, or a stream trace with an ended event or an error; distinct by op hash."
     )
     ctx.cov["exhaustive"] = True
